@@ -24,12 +24,29 @@ if not os.path.isdir(wt):
 env = dict(os.environ, VERIF_REPO=wt, VERIF_TARGET="/tmp/lane%d_t" % lane, VERIF_WORK="/tmp/lane%d_w" % lane)
 muts = sorted(os.listdir(os.path.join(VERIF, "seeded")))
 muts = [m for m in muts if os.path.isdir(os.path.join(VERIF, "seeded", m))]
+def _sel(m):
+    try:
+        meta = json.load(open(os.path.join(VERIF, "seeded", m, "meta.json")))
+    except Exception:
+        return False
+    if os.environ.get("ROUND") and str(meta.get("round")) != os.environ["ROUND"]:
+        return False
+    if os.environ.get("ONLY") and m not in os.environ["ONLY"].split(","):
+        return False
+    return True
+
+
+muts = [m for m in muts if _sel(m)]
 for i, m in enumerate(muts):
     if i % nl != lane:
         continue
     meta_p = os.path.join(VERIF, "seeded", m, "meta.json")
     meta = json.load(open(meta_p))
     if "obsolete" in meta.get("status", ""):
+        continue
+    if os.environ.get("ROUND") and str(meta.get("round")) != os.environ["ROUND"]:
+        continue
+    if os.environ.get("ONLY") and m not in os.environ["ONLY"].split(","):
         continue
     subprocess.run(["git", "-C", wt, "checkout", "-q", "--detach", subprocess.check_output(["git", "-C", "/repo", "rev-parse", "HEAD"], text=True).strip()], check=True)
     subprocess.run(["git", "-C", wt, "checkout", "--", "."], check=True)
